@@ -470,6 +470,15 @@ func c12System(c *Ctx) {
 	if c.Plan.Draw(3) == 0 {
 		cfg.Flags = append(cfg.Flags, "--limit-loadavg")
 	}
+	// a third of the system cases run in cluster mode: jobs go through the
+	// (simulated) scheduler's submit command under --maxjobs
+	cluster := c.Plan.Draw(3) == 0
+	maxJobs := 1 + c.Plan.Draw(4)
+	if cluster {
+		cfg.JobMode = "sge"
+		cfg.Flags = append(cfg.Flags, fmt.Sprintf("--maxjobs=%d", maxJobs), fmt.Sprintf("--jobinterval=%d", []int{0, 100, 2000}[c.Plan.Draw(3)]))
+		c.Res.Probes["cluster-mode-runs"]++
+	}
 	swarmSched(c.Plan, cfg)
 	cfg.WJob = 1 // jobs are slow relative to mrp: reservations overlap
 	if cfg.WTime == 0 {
@@ -478,6 +487,7 @@ func c12System(c *Ctx) {
 	weather := c.Plan.Draw(2) == 0
 	salt := uint64(c.Plan.Draw(1000))
 	maxThreads, maxMem := 0.0, 0.0
+	maxLive := 0
 	var viol []Violation
 	r := c.RunOnce(cfg, func(r *Run) {
 		if weather {
@@ -503,6 +513,20 @@ func c12System(c *Ctx) {
 			if th > float64(cores)+1e-9 && len(viol) == 0 {
 				viol = append(viol, Violation{"C12", "local-cores-exceeded", fmt.Sprintf("%d live local jobs reserve %.2f threads in total, --localcores=%d", n, th, cores), r.Steps})
 			}
+			if cluster {
+				live := 0
+				for _, cj := range r.Cluster {
+					if cj.Live() {
+						live++
+					}
+				}
+				if live > maxLive {
+					maxLive = live
+				}
+				if live > maxJobs && len(viol) == 0 {
+					viol = append(viol, Violation{"C12", "maxjobs-exceeded-in-cluster-mode", fmt.Sprintf("%d jobs are queued or running on the cluster, --maxjobs=%d", live, maxJobs), r.Steps})
+				}
+			}
 			if mg > float64(mem)+1e-9 && len(viol) == 0 {
 				viol = append(viol, Violation{"C12", "local-mem-exceeded", fmt.Sprintf("%d live local jobs reserve %.2f GB in total, --localmem=%d", n, mg, mem), r.Steps})
 			}
@@ -517,6 +541,12 @@ func c12System(c *Ctx) {
 	}
 	if maxMem >= float64(mem)-1e-9 {
 		c.Res.Probes["mem-fully-subscribed"]++
+	}
+	if cluster {
+		c.Res.Probes["cluster-jobs-submitted"] += len(r.Cluster)
+		if maxLive >= maxJobs {
+			c.Res.Probes["maxjobs-fully-used"]++
+		}
 	}
 	if strings.Contains(r.outBuf.String(), "Waiting for jobs to complete") || weather {
 		c.Res.Probes["weather-or-waiting"]++
